@@ -186,12 +186,21 @@ func apply(h hashing.IHash, algo string, o op, salt byte) (got, want string, err
 	case "cancel":
 		r.cancAt = o.At
 	}
-	got, err = h.CalculateWithContext(ctx, r)
+	func() {
+		defer func() {
+			if pv := recover(); pv != nil {
+				err = fmt.Errorf("%w: %v", errPanicked, pv)
+			}
+		}()
+		got, err = h.CalculateWithContext(ctx, r)
+	}()
 	if o.Kind == "ok" {
 		want = reference(algo, data)
 	}
 	return
 }
+
+var errPanicked = errors.New("the calculation panicked")
 
 type violation struct {
 	Algo    string   `json:"algo"`
@@ -241,6 +250,9 @@ func TestC20(t *testing.T) {
 							hist = append(hist, o.String())
 							got, want, err := apply(h, algo, o, byte(k+1))
 							transitions.Add(1)
+							if k == level-1 && errors.Is(err, errPanicked) {
+								rep.Violation(fmt.Sprintf("panic:algo=%s:prev=%s", algo, prev), violation{algo, append([]string(nil), hist...), err.Error(), want, ""})
+							}
 							// a digest handed out earlier stays what it was, whatever the hasher computes afterwards
 							if k == level-1 {
 								for _, kd := range kept {
